@@ -1,5 +1,6 @@
 import QiVerif.Driver.Util
 import QiVerif.Model.Session
+import QiVerif.Model.Flood
 import Std.Data.HashSet
 namespace QiVerif.Driver.C19
 open QiVerif QiVerif.Driver QiVerif.Session
@@ -45,6 +46,11 @@ def run (args : List String) : String :=
     let p := compile tokens
     search p n.toNat! [(init, [])] ((∅ : Std.HashSet String).insert (key n.toNat! init)) 2000000
   | "session.stress" :: _ => "ok"
+  | ["session.flood", n] =>
+    match Flood.floodOutcome n.toNat! with
+    | .allServed => "ok"
+    | .someDropped => "fail:dropped"
+    | .timing => "timing"
   | _ => "bad-op"
 
 end QiVerif.Driver.C19
